@@ -235,30 +235,52 @@ theorem strcount_strData (v : Value) (hs : isStr v = true) (hsz : size v ≤ 255
 /-- the projection of a decoded field to what the property compares -/
 def projF (d : DField) : NField := ⟨d.num, d.bt, d.value⟩
 
+/-- the decoded field (with the attributes of its `FieldBase` the decoder sets) a validated field comes back as -/
+def dfieldBack (fac : Factory) (m : Nat) (f : Field) : Option DField :=
+  match f.base with
+  | none => none
+  | some b =>
+    if size f.value = 0 then none else
+    let info := fac.create m b.num
+    let r := readAs fac m b f.value
+    some ⟨b.num, r.1, info.known, r.2.1,
+      if info.known then info.array else decide (size f.value > btSize b.baseType ∧ size f.value % btSize b.baseType = 0),
+      reread r.1 r.2.1 r.2.2 f.value, false⟩
+
+theorem dfieldBack_proj (fac : Factory) (m : Nat) (f : Field) :
+    (dfieldBack fac m f).map projF = fieldBack reread true fac m f := by
+  unfold dfieldBack fieldBack
+  cases f.base with
+  | none => rfl
+  | some b =>
+    simp only
+    by_cases hz : size f.value = 0
+    · simp [hz]
+    · simp [hz, projF]
+
 /-- **a validated field through the wire**: the bytes the encoder writes for a kept field (well-formed value aligned
 with the base type of its `FieldBase`, at most 255 bytes), read under the definition the encoder derives from it,
-are interpreted by the decoder as `fieldBack reread` says — under every byte order, for every factory the field was
-built from. -/
+are interpreted by the decoder as `dfieldBack` (= `fieldBack reread` on what the property compares) says — under every
+byte order, for every factory the field was built from. -/
 theorem interpField_marshal (fac : Factory) (m arch : Nat) (f : Field) (b : FieldBase) (bs : List Nat)
     (hb : f.base = some b) (hwf : wf f.value = true) (hal : align f.value b.baseType = true)
     (hsz : size f.value ≤ 255) (hag : agreeField fac m f = true) (hm : marshal f.value arch = some bs) :
-    ∃ r, interpField fac m arch ⟨b.num, size f.value % 256, b.baseType⟩ bs = .ok r ∧
-      r.map projF = fieldBack reread true fac m f := by
+    interpField fac m arch ⟨b.num, size f.value % 256, b.baseType⟩ bs = .ok (dfieldBack fac m f) := by
   have hsize : size f.value % 256 = size f.value := Nat.mod_eq_of_lt (by omega)
   have hlen : bs.length = size f.value := marshal_length _ _ _ hm
   simp only [agreeField, hb] at hag
   by_cases hz : size f.value = 0
   · -- nothing written: the decoder skips the field
-    refine ⟨none, ?_, ?_⟩
-    · unfold interpField
-      simp only [hsize, hz]
-      cases hk : (fac.create m b.num).known
-      · -- an invalid base type is still a shape (the size test comes first only for known fields)
-        unfold fieldShape
-        simp only [hk, Bool.false_eq_true, ↓reduceIte, bind, Res.bind, pure, Nat.not_lt_zero, gt_iff_lt]
-        rfl
-      · rw [fieldShape_known _ _ hk]; rfl
-    · simp [fieldBack, hb, hz]
+    have hd : dfieldBack fac m f = none := by simp [dfieldBack, hb, hz]
+    rw [hd]
+    unfold interpField
+    simp only [hsize, hz]
+    cases hk : (fac.create m b.num).known
+    · -- an invalid base type is still a shape (the size test comes first only for known fields)
+      unfold fieldShape
+      simp only [hk, Bool.false_eq_true, ↓reduceIte, bind, Res.bind, pure, Nat.not_lt_zero, gt_iff_lt]
+      rfl
+    · rw [fieldShape_known _ _ hk]; rfl
   · obtain ⟨hge, hvalid, hnum, hstr⟩ := size_aligned f.value b.baseType hal hz
     have hne : bs ≠ [] := by intro h; rw [h] at hlen; simp at hlen; omega
     cases hk : (fac.create m b.num).known
@@ -274,28 +296,30 @@ theorem interpField_marshal (fac : Factory) (m arch : Nat) (f : Field) (b : Fiel
           simp only [hs, decide_true, and_self, ↓reduceIte, hbs]
           exact strcount_strData _ (hstr hs) hsz
         · simp [hs]
-      refine ⟨some ⟨b.num, b.baseType, false, decide (b.baseType &&& baseTypeNumMask = profileBool),
+      have hd : dfieldBack fac m f = some ⟨b.num, b.baseType, false, decide (b.baseType &&& baseTypeNumMask = profileBool),
           decide (size f.value > btSize b.baseType ∧ size f.value % btSize b.baseType = 0),
-          reread b.baseType (decide (b.baseType &&& baseTypeNumMask = profileBool)) (inferArray b.baseType f.value) f.value, false⟩, ?_, ?_⟩
-      · unfold interpField
-        simp only [hsize, hsh, Res.bind, hz, ↓reduceIte, readShape, Nat.not_lt.mpr hge, valueOfBytes, hk]
-        rw [harr, unmarshal_reread f.value arch b.baseType bs _ _ hwf hal hm (Or.inr hne)]
-        simp
-      · simp [fieldBack, hb, hz, readAs, hk, projF]
+          reread b.baseType (decide (b.baseType &&& baseTypeNumMask = profileBool)) (inferArray b.baseType f.value) f.value, false⟩ := by
+        simp [dfieldBack, hb, hz, readAs, hk]
+      rw [hd]
+      unfold interpField
+      simp only [hsize, hsh, Res.bind, hz, ↓reduceIte, readShape, Nat.not_lt.mpr hge, valueOfBytes, hk]
+      rw [harr, unmarshal_reread f.value arch b.baseType bs _ _ hwf hal hm (Or.inr hne)]
+      simp
     · -- a field the factory knows: base type and flags are the factory's (= the FieldBase's)
       simp only [hk, Bool.true_eq, Bool.not_true, Bool.false_or, Bool.and_eq_true, beq_iff_eq, Bool.true_and] at hag
       obtain ⟨_, ⟨hbt, hbool⟩, harray⟩ := hag
       have hsh := fieldShape_known (fac.create m b.num) ⟨b.num, size f.value % 256, b.baseType⟩ hk
       simp only [hsize] at hsh
-      refine ⟨some ⟨b.num, (fac.create m b.num).bt, true, (fac.create m b.num).isBool, (fac.create m b.num).array,
-          reread (fac.create m b.num).bt (fac.create m b.num).isBool (fac.create m b.num).array f.value, false⟩, ?_, ?_⟩
-      · unfold interpField
-        simp only [hsize, hsh, Res.bind, hz, ↓reduceIte, readShape, hbt, Nat.not_lt.mpr hge, valueOfBytes, hk]
-        have : (if (false = true ∧ b.baseType = btString) then decide (strcount bs > 1) else (fac.create m b.num).array) =
-            (fac.create m b.num).array := by simp
-        rw [this, unmarshal_reread f.value arch b.baseType bs _ _ hwf hal hm (Or.inr hne)]
-        simp
-      · simp [fieldBack, hb, hz, readAs, hk, projF]
+      have hd : dfieldBack fac m f = some ⟨b.num, (fac.create m b.num).bt, true, (fac.create m b.num).isBool, (fac.create m b.num).array,
+          reread (fac.create m b.num).bt (fac.create m b.num).isBool (fac.create m b.num).array f.value, false⟩ := by
+        simp [dfieldBack, hb, hz, readAs, hk]
+      rw [hd]
+      unfold interpField
+      simp only [hsize, hsh, Res.bind, hz, ↓reduceIte, readShape, hbt, Nat.not_lt.mpr hge, valueOfBytes, hk]
+      have : (if (false = true ∧ b.baseType = btString) then decide (strcount bs > 1) else (fac.create m b.num).array) =
+          (fac.create m b.num).array := by simp
+      rw [this, unmarshal_reread f.value arch b.baseType bs _ _ hwf hal hm (Or.inr hne)]
+      simp
 
 end Fit.E2E
 
@@ -362,8 +386,7 @@ theorem align_valid (v : Value) (bt : Nat) (hal : align v bt = true) : btValid b
 theorem interpDev_marshal (arch : Nat) (d : DevField) (fdsc : Desc) (bs : List Nat)
     (hwf : wf d.value = true) (hal : align d.value fdsc.bt = true)
     (hsz : size d.value ≤ 255) (hm : marshal d.value arch = some bs) :
-    ∃ r, interpDev arch ⟨d.num, size d.value % 256, d.devIdx⟩ fdsc bs = .ok r ∧
-      r.map projD = (if size d.value = 0 then none else
+    interpDev arch ⟨d.num, size d.value % 256, d.devIdx⟩ fdsc bs = .ok (if size d.value = 0 then none else
         some ⟨d.num, d.devIdx, reread fdsc.bt (decide (fdsc.bt &&& baseTypeNumMask = profileBool)) (inferArray fdsc.bt d.value) d.value⟩) := by
   have hsize : size d.value % 256 = size d.value := Nat.mod_eq_of_lt (by omega)
   have hlen : bs.length = size d.value := marshal_length _ _ _ hm
@@ -377,7 +400,7 @@ theorem interpDev_marshal (arch : Nat) (d : DevField) (fdsc : Desc) (bs : List N
     · simp [h, modP, hpos, Res.bind]
     · simp [h]
   by_cases hz : size d.value = 0
-  · refine ⟨none, ?_, by simp [hz]⟩
+  · rw [if_pos hz]
     unfold interpDev
     simp only [validBaseType, hvalid, Bool.not_true, Bool.false_eq_true, ↓reduceIte, hsize]
     rw [harrT]
@@ -393,7 +416,7 @@ theorem interpDev_marshal (arch : Nat) (d : DevField) (fdsc : Desc) (bs : List N
         simp only [hs, decide_true, and_self, ↓reduceIte, hbs]
         exact strcount_strData _ (hstr hs) hsz
       · simp [hs]
-    refine ⟨some ⟨d.num, d.devIdx, reread fdsc.bt (decide (fdsc.bt &&& baseTypeNumMask = profileBool)) (inferArray fdsc.bt d.value) d.value⟩, ?_, by simp [hz, projD]⟩
+    rw [if_neg hz]
     unfold interpDev
     simp only [validBaseType, hvalid, Bool.not_true, Bool.false_eq_true, ↓reduceIte, hsize]
     rw [harrT]
